@@ -599,8 +599,29 @@ def canon(sp):
     return t + (b'.' + x if x else b'')
 
 
+MASKS = [b'*.*', b'a*', b'*.c', b'A?.*', b'*.DAT', b'?']
+
+
+def dos_match(mask, name):
+    """DOS wildcard match of a canonical 8.3 name: trunk and extension are matched separately, padded
+    with blanks; * fills the rest of its part with ?; ? matches any character including the padding."""
+    def part(m, width):
+        out = b''
+        for c in bytearray(m.upper()):
+            if c == 0x2a:
+                out += b'?' * (width - len(out))
+                break
+            out += bytes(bytearray([c]))
+        return out.ljust(width)[:width]
+    mt, _, mx = mask.partition(b'.')
+    nt, _, nx = name.partition(b'.')
+    pm = part(mt, 8) + part(mx, 3)
+    pn = nt.ljust(8) + nx.ljust(3)
+    return all(a == 0x3f or a == b for a, b in zip(bytearray(pm), bytearray(pn)))
+
+
 def bfs_ops():
-    ops = [('C', s) for s in SPELL] + [('K', s) for s in SPELL]
+    ops = [('C', s) for s in SPELL] + [('K', s) for s in SPELL] + [('K', m) for m in MASKS]
     ops += [('R', a, b) for a in SPELL for b in SPELL]
     return ops
 
@@ -611,6 +632,11 @@ def apply_model(model, op):
     if op[0] == 'C':
         m[canon(op[1])] = op[1] + b'\r\n'
         return m, None
+    if op[0] == 'K' and op[1] in MASKS:
+        hit = [k for k in m if dos_match(op[1], k)]
+        for k in hit:
+            del m[k]
+        return m, (None if hit else 53)
     if op[0] == 'K':
         if canon(op[1]) in m:
             del m[canon(op[1])]
@@ -677,6 +703,48 @@ def expand_hist(hist):
     return out
 
 
+# all short sequences, no state merging: a session may carry state that the host directory does not show
+
+SEQ_OPS = [('K', b'ab'), ('K', b'AB.C'), ('K', b'x1.dat')] + [('K', m) for m in MASKS] + [
+    ('C', b'ab'), ('C', b'aB.c'), ('R', b'ab', b'x1.dat'), ('R', b'AB.C', b'ab'), ('R', b'x1.dat', b'q.c')]
+SEQ_START = [b'ab', b'AB.C', b'x1.dat']
+
+
+def work_seq(shard):
+    part = Partial()
+    with Env() as e:
+        for seq in shard:
+            e.fresh()
+            e.clear()
+            model = {}
+            for sp in SEQ_START:
+                e.run(stmt_of(('C', sp)))
+                model, _ = apply_model(model, ('C', sp))
+            for i, op in enumerate(seq):
+                model, exp_err = apply_model(model, op)
+                r = e.run(stmt_of(op))
+                now = dict((k, _strip_eof(v)) for k, v in e.listing().items())
+                case = {'seq': [[x.decode('latin-1') if isinstance(x, bytes) else x for x in o] for o in seq]}
+                kind = {'C': 'create', 'K': 'kill', 'R': 'rename'}[op[0]]
+                part.n += 1
+                if r.exc is not None:
+                    part.violation('seq/host-exception/%s' % H.exc_key(r.exc), '%r in %r raised %r' % (op, seq, r.exc), case)
+                    break
+                if r.err != exp_err:
+                    part.violation('seq/%s/error-%s-expected-%s' % (kind, r.err, exp_err),
+                                   'step %d of %r: BASIC error %r, model expects %r' % (i, [stmt_of(o) for o in seq], r.err, exp_err), case)
+                    break
+                if now != model:
+                    part.violation('seq/%s/host-directory' % kind,
+                                   'step %d of %r: host directory %r, model %r' % (i, [stmt_of(o) for o in seq], now, model), case)
+                    break
+            part.traces += 1
+            part.classes.add('seq/%s/%s' % ('-'.join(o[0] + ('*' if o[0] == 'K' and o[1] in MASKS else '') for o in seq),
+                                            'empty' if not model else 'files'))
+    part.sample({'seq': repr(shard[0])})
+    return part
+
+
 def work_hist(shard):
     part = Partial()
     res = bfs.explore(expand_hist, [()], shard, part, root_key=(), chunk=1, label='hist')
@@ -714,12 +782,20 @@ def legs(ctx):
                    bound='%d pre-existing host directory contents (8.3 names in lower/mixed/upper case, blank, '
                          'trailing dot; long, multi-dot, non-ASCII, illegal-character and hidden names)' % len(HOST_SETS)))
     out.append(Leg('hist', [4 if ctx.quick else 8], work_hist, exhaustive=True, serial=True,
-                   bound='BFS over create/KILL/NAME histories on 6 spellings of 3 files (%d operations per state), '
+                   bound='BFS over create/KILL/NAME histories on 6 spellings of 3 files and 6 KILL wildcard masks (%d operations per state), '
                          'depth <= %d or fixed point' % (len(bfs_ops()), 4 if ctx.quick else 8)))
+    n = 3 if ctx.quick else 4
+    seqs = [sq for k in range(2, n + 1) for sq in itertools.product(SEQ_OPS, repeat=k)]
+    out.append(Leg('seq', list(chunked(seqs, 30)), work_seq, exhaustive=True,
+                   bound='all %d sequences of 2..%d operations over %d (KILL by name and by 6 wildcard masks, create, NAME) from a '
+                         'directory of 3 files, each on a fresh session and without merging states' % (len(seqs), n, len(SEQ_OPS))))
     return out
 
 
 def replay(ctx, leg, case):
+    if leg == 'seq':
+        enc = lambda x: x.encode('latin-1') if isinstance(x, str) else x
+        return work_seq([[tuple(enc(x) for x in o) for o in case['seq']]])
     part = Partial()
     if 'history' in case:
         hist = [tuple(op) for op in case['history']]
